@@ -625,12 +625,21 @@ func (c *DnsCache) IncludeAnyIp() bool {
 }
 
 func dnsAnswerIP(rr dnsmessage.RR) (netip.Addr, bool) {
+	var (
+		addr	netip.Addr
+		ok	bool
+	)
 	switch body := rr.(type) {
 	case *dnsmessage.A:
-		return netip.AddrFromSlice(body.A)
+		addr, ok = netip.AddrFromSlice(body.A)
 	case *dnsmessage.AAAA:
-		return netip.AddrFromSlice(body.AAAA)
+		addr, ok = netip.AddrFromSlice(body.AAAA)
 	default:
 		return netip.Addr{}, false
 	}
+
+	if ok && addr.Is4In6() && addr.Unmap().IsUnspecified() {
+		addr = addr.Unmap()
+	}
+	return addr, ok
 }
